@@ -82,6 +82,7 @@ package hessian
 
 //@ func encodeDate
 //@   pure
+//@   token TDate(date)
 //@   let ms     = be64(result, 1)
 //@   let floor  = date.sec*1000 + date.nsec/1000000
 //@   let msOK   = ms == floor || (date.nsec % 1000000 != 0 && ms == floor + 1)
@@ -178,48 +179,6 @@ package hessian
 //@   ensures [C09,C02:bin-empty]            len(value) == 0 ==> len(result) == 1 && result[0] == 0x20
 //@   ensures [C09,C02,C01:bin-production]   len(value) != 0 ==> streamOf(result) == G.binProd(value)
 
-// ---------------------------------------------------------------- encoder: fail-stop flags (C13 @E, C15 @W)
-// @W becomes true when any Write returns an error or a short count; @E when an
-// error value is created.  Every encoder function must turn either into a
-// non-nil error of its own.
-
-//@ func (*Encoder).writeBT
-//@   assigns @out, @W, @nwrites
-//@   ensures [C15:W] (@W && !old(@W)) ==> err != nil
-
-//@ func (*Encoder).writeBytes
-//@   assigns @out, @W, @nwrites
-//@   ensures [C15:W] (@W && !old(@W)) ==> err != nil
-
-//@ func (*Encoder).writeInt
-//@   assigns @out, @W, @nwrites
-//@   ensures [C15:W] (@W && !old(@W)) ==> err != nil
-
-//@ func (*Encoder).writeLong
-//@   assigns @out, @W, @nwrites
-//@   ensures [C15:W] (@W && !old(@W)) ==> err != nil
-
-//@ func (*Encoder).writeDouble
-//@   assigns @out, @W, @E, @nwrites
-//@   ensures [C15:W] (@W && !old(@W)) ==> err != nil
-//@   ensures [C13:E] (@E && !old(@E)) ==> err != nil
-
-//@ func (*Encoder).writeBoolean
-//@   assigns @out, @W, @nwrites
-//@   ensures [C15:W] (@W && !old(@W)) ==> err != nil
-
-//@ func (*Encoder).writeBinary
-//@   assigns @out, @W, @nwrites
-//@   ensures [C15:W] (@W && !old(@W)) ==> err != nil
-
-//@ func (*Encoder).writeString
-//@   assigns @out, @W, @nwrites
-//@   ensures [C15:W] (@W && !old(@W)) ==> err != nil
-
-//@ func (*Encoder).writeRef
-//@   assigns @out, @W, @nwrites
-//@   ensures [C15:W] (@W && !old(@W)) ==> err != nil
-
 // ---------------------------------------------------------------- string / binary decoders (C03, C09, C14)
 // @declared: the length the header of the chunk being read declares.
 
@@ -272,73 +231,3 @@ package hessian
 //@   assigns @pos, @E, @declared
 //@   loop 1 invariant [C03,C09:bin-chunk-own-length] len(buf) == @declared
 //@   ensures [C14:bin-total] true
-
-//@ func UnpackPtr
-//@   pure
-//@   loop 1 invariant [C16:unpack] true
-//@   ensures [C16,C13:unpack-not-ptr] true
-
-//@ func UnpackPtrValue
-//@   pure
-//@   loop 1 invariant [C16:unpack] true
-//@   ensures [C16,C13:unpackvalue] true
-
-//@ func UnpackPtrType
-//@   pure
-//@   loop 1 invariant [C16:unpack] true
-//@   ensures [C16,C13:unpacktype] true
-
-//@ func (*Encoder).existClassDef
-//@   pure
-//@   loop 1 invariant [C02:exist-index] 0 <= i && i <= len(e.clsDefList)
-//@   ensures [C02,C05:exist-range] result1 ==> 0 <= result0 && result0 < len(e.clsDefList)
-
-//@ func (*Encoder).checkEncodeRefMap
-//@   requires e.refMap != nil
-//@   assigns mapof(e.refMap)
-//@   loop 1 invariant [C04:ref-walk] true
-//@   ensures [C04:ref-total] true
-
-//@ func (*Encoder).writeClsDef
-//@   assigns @out, @W, @E, @nwrites, e.clsDefList
-//@   loop 1 invariant [C15:W-loop] 0 <= i && i <= len(fldList) && (@W ==> old(@W)) && (@E ==> old(@E))
-//@   ensures [C15:W] (@W && !old(@W)) ==> err != nil
-//@   ensures [C13:E] (@E && !old(@E)) ==> err != nil
-
-//@ func (*Encoder).writeObject
-//@   requires e.nameMap != nil && e.refMap != nil
-//@   assigns @out, @W, @E, @nwrites, e.clsDefList, mapof(e.refMap), mapof(e.nameMap)
-//@   loop 1 invariant [C15,C13:flags-loop] (@W ==> old(@W)) && (@E ==> old(@E))
-//@   ensures [C15:W] (@W && !old(@W)) ==> err != nil
-//@   ensures [C13:E] (@E && !old(@E)) ==> err != nil
-
-//@ func (*Encoder).writeList
-//@   requires e.nameMap != nil && e.refMap != nil
-//@   assigns @out, @W, @E, @nwrites, e.clsDefList, mapof(e.refMap), mapof(e.nameMap)
-//@   loop 1 invariant [C15,C13:flags-loop] (@W ==> old(@W)) && (@E ==> old(@E))
-//@   ensures [C15:W] (@W && !old(@W)) ==> err != nil
-//@   ensures [C13:E] (@E && !old(@E)) ==> err != nil
-
-//@ func (*Encoder).writeMap
-//@   requires e.nameMap != nil && e.refMap != nil
-//@   assigns @out, @W, @E, @nwrites, e.clsDefList, mapof(e.refMap), mapof(e.nameMap)
-//@   loop 1 invariant [C15,C13:flags-loop] 0 <= i && (@W ==> old(@W)) && (@E ==> old(@E))
-//@   loop 2 invariant [C15,C13:flags-loop] 0 <= i && (@W ==> old(@W)) && (@E ==> old(@E))
-//@   ensures [C15:W] (@W && !old(@W)) ==> err != nil
-//@   ensures [C13:E] (@E && !old(@E)) ==> err != nil
-
-//@ func (*Encoder).WriteData
-//@   requires e.nameMap != nil && e.refMap != nil
-//@   assigns @out, @W, @E, @nwrites, e.clsDefList, mapof(e.refMap), mapof(e.nameMap)
-//@   ensures [C15:W] (@W && !old(@W)) ==> err != nil
-//@   ensures [C13:E] (@E && !old(@E)) ==> err != nil
-
-//@ func lowerName
-//@   requires len(name) > 0
-//@   pure
-//@   ensures [C02,C05:lower-first] err == nil && len(result0) == len(name) && result0[0] == ite('A' <= name[0] && name[0] <= 'Z', name[0] + 32, name[0])
-
-//@ func capitalizeName
-//@   requires len(name) > 0
-//@   pure
-//@   ensures [C05:cap-first] len(result) == len(name) && result[0] == ite('a' <= name[0] && name[0] <= 'z', name[0] - 32, name[0])
